@@ -107,25 +107,41 @@ pub fn ser_v(n: &N, out: &mut String, v: usize, inline_ctx: bool) {
             if let (true, Some(ind)) = (container_only, indent) {
                 out.push_str(ind);
             }
-            for k in kids {
+            for (i, k) in kids.iter().enumerate() {
                 ser_v(k, out, v, !blockish);
-                if let (true, Some(ind)) = (container_only, indent) {
-                    out.push_str(ind);
+                if let Some(ind) = indent {
+                    if container_only {
+                        out.push_str(ind);
+                    } else if blockish && !inline_ctx && is_blockish(k) && kids.get(i + 1).map(is_blockish).unwrap_or(true) {
+                        // white space between two block tags (or a block end tag and its
+                        // parent's end tag) – never directly before inline text
+                        out.push_str(ind);
+                    }
                 }
             }
             out.push_str(&format!("</{tag}>"));
-            if let Some(ind) = indent {
-                if !inline_ctx && ["p", "ul", "ol", "blockquote", "h3", "dl", "li", "dt", "dd", "div"].contains(&tg) {
-                    out.push_str(if v == 7 { "\n" } else { ind });
-                }
-            }
         }
     }
 }
+fn is_blockish(n: &N) -> bool {
+    matches!(n, N::E(t, _, _) if BLOCKISH.contains(&t.as_str()))
+}
 pub fn html_v(d: &[N], v: usize) -> String {
     let mut s = String::new();
-    for x in d {
+    let indent = match v {
+        7 => Some("\n"),
+        9 => Some("\n\t"),
+        10 => Some("\r\n\t\u{c} "),
+        11 => Some("\t"),
+        _ => None,
+    };
+    for (i, x) in d.iter().enumerate() {
         ser_v(x, &mut s, v, false);
+        if let Some(ind) = indent {
+            if is_blockish(x) && d.get(i + 1).map(is_blockish).unwrap_or(true) {
+                s.push_str(ind);
+            }
+        }
     }
     s
 }
@@ -209,7 +225,18 @@ impl Prop for P {
         "C13"
     }
     fn build(&self, tier: Tier) -> Box<dyn Scope> {
-        let docs = block_docs(tier.pick(2, 3), G { tables: false, pre: false, valid_only: false });
+        let mut docs = block_docs(tier.pick(2, 3), G { tables: false, pre: false, valid_only: false });
+        // the same documents behind a block that renders nothing, and with an empty block
+        // first inside list items / quotes
+        let small = block_docs(1, G { tables: false, pre: false, valid_only: true });
+        for d in &small {
+            for lead in [e("h3", vec![]), e("p", vec![t(" ")]), e("p", vec![e("br", vec![])]), e("div", vec![e("span", vec![])])] {
+                let mut v = vec![lead.clone()];
+                v.extend(d.clone());
+                docs.push(v);
+                docs.push(vec![e("ul", vec![e("li", { let mut x = vec![lead.clone()]; x.extend(d.clone()); x })])]);
+            }
+        }
         Box::new(S { docs, maxw: tier.pick(14, 60) })
     }
     fn replay(&self, case: &Value, cx: &mut Cx) {
